@@ -268,6 +268,14 @@ Definition list_get (l : list pyval) (i : Z) : res pyval :=
        | None => Err "IndexError"
        end.
 
+(* c[n:] for n >= 0 (negative bounds are not in the subset) *)
+Definition py_slice_from (c k : pyval) : res pyval :=
+  match c, as_int k with
+  | VList l, Some n => if Z.ltb n 0 then Err "Unsupported" else Ok (VList (List.skipn (Z.to_nat n) l))
+  | VTuple l, Some n => if Z.ltb n 0 then Err "Unsupported" else Ok (VTuple (List.skipn (Z.to_nat n) l))
+  | _, _ => Err "TypeError"
+  end.
+
 Definition py_getitem (c k : pyval) : res pyval :=
   match c with
   | VList l | VTuple l => match as_int k with
